@@ -16,6 +16,12 @@
 (*                   (x + y / x.combine(y) / MultiSweep(..) over operands AND earlier results);  *)
 (*                   here Next is a real action (one more step) and every reachable state is a   *)
 (*                   case: the objects and what each of them must enumerate after the history    *)
+(*        "phist"  : three Sweep objects that carry constants / derivers and a history of        *)
+(*                   <= MaxSteps steps x.product(y[, z]) / x.add_derivers(..) / x + y over        *)
+(*                   operands AND earlier results (NextPHist); every reachable state is a case   *)
+(*                   (MaxKeys >= 4 adds an operand triple with a two-key zipped operand)          *)
+(* In mode "single" a sweep with derivers is also required to be what add_derivers makes of the  *)
+(* same sweep without them (out.added, InvAddDerivers).                                          *)
 (* In mode "multi" every case is also evaluated through every sum expression of SumExprs(NOps)  *)
 (* (nestings / spellings of +, combine, MultiSweep over the operands in order; ShapeSet = "all" *)
 (* or "uniform", see SumExprs), exported once per run as a "SHAPES" line.                       *)
@@ -161,11 +167,50 @@ OpId(op, n) == IF op.f = "sum" THEN (op.a[1] - 1) * n + (op.a[2] - 1)           
                ELSE n * n + (IF Len(op.a) = 0 THEN 0 ELSE IF Len(op.a) = 1 THEN op.a[1]
                              ELSE n + (op.a[1] - 1) * n + op.a[2])
 
+(* histories with products and add_derivers (Sweep.tla: PStep).  The operands: the classes of history that need  *)
+(* state kept across calls are those where SEVERAL operands of one product carry constants, or several carry     *)
+(* derivers (their dicts have to be merged for the product and must not be merged INTO an operand), and where a  *)
+(* sweep that carries constants / an exclude / dims gets derivers added.  Hence a triple with constants on every *)
+(* operand (the middle one with a deriver reading its constant and an exclude), one with derivers on every       *)
+(* operand, and - MaxKeys >= 4 - one with a two-key zipped operand (all dims written out: with dims = None on    *)
+(* the first operand of a product and a zip later on, known finding F21 would answer).                           *)
+PHistTriples ==
+    {<<Mk(It("a", <<11, 12>>), NoDims, FALSE, O(CFresh(1), <<>>, <<>>)),
+       Mk(It("b", <<21, 22>>), << <<"b">> >>, FALSE, Two(It("b", <<21, 22>>), 2)),
+       Mk(It("c", <<31>>), << <<"c">> >>, TRUE, O(CFresh(3), <<>>, <<>>))>>,
+     <<Mk(It("a", <<11, 12>>), NoDims, FALSE, O(<<>>, DCopy(It("a", <<11, 12>>), 1), <<>>)),
+       Mk(It("b", <<21, 22>>), << <<"b">> >>, FALSE, O(<<>>, DCopy(It("b", <<21, 22>>), 2), ELast(It("b", <<21, 22>>)))),
+       Mk(It("c", <<31>>), NoDims, FALSE, O(CFresh(3), DConst(It("c", <<31>>), 3), <<>>))>>} \cup
+    (IF MaxKeys < 4 THEN {} ELSE
+     LET ab == It("a", <<11, 12>>) \o It("b", <<21, 22>>) IN
+     {<<Mk(ab, << <<"a", "b">> >>, FALSE, O(CFresh(1), <<>>, EFirst(ab))),
+        Mk(It("c", <<31, 32>>), << <<"c">> >>, FALSE, O(CFresh(2), <<>>, <<>>)),
+        Mk(It("d", <<41>>), << <<"d">> >>, TRUE, O(<<>>, DCopy(It("d", <<41>>), 3), <<>>))>>})
+(* the derivers a derive step may add to sweep sw; w = the new key (named after the number of the new object):  *)
+(* a function of two item keys, and - when sw has constants - one that reads the last constant                   *)
+WName == <<"w1", "w2", "w3", "w4", "w5", "w6", "w7", "w8">>
+StepDerivers(sw, w) ==
+    {<<[k |-> w, f |-> "pair", a |-> <<K1(sw.items), KL(sw.items)>>]>>} \cup
+    (IF sw.consts = <<>> THEN {} ELSE {<<[k |-> w, f |-> "pair", a |-> <<sw.consts[Len(sw.consts)].k, K1(sw.items)>>]>>})
+(* the steps possible in store st: Sweep!PStepOk picks the meaningful ones *)
+POp(f, a, d) == [f |-> f, a |-> a, d |-> d]
+Injective(a) == \A i, j \in DOMAIN a : i # j => a[i] # a[j]
+PSteps(st) ==
+    LET n == Len(st)
+        sw1 == {x \in 1..n : st[x].kind = "sweep" /\ st[x].sw.items # <<>>}
+        cand == {POp("product", a, <<>>) : a \in {b \in UNION {[1..m -> sw1] : m \in 2..3} : Injective(b)}} \cup
+                UNION {{POp("derive", <<x>>, d) : d \in StepDerivers(st[x].sw, WName[n + 1])} : x \in sw1} \cup
+                {POp("sum", <<x, y>>, <<>>) : x, y \in 1..n}
+    IN  {op \in cand : PStepOk(st, op)}
+POpHash(op) == Mix(IF op.f = "product" THEN 3 ELSE IF op.f = "derive" THEN 5 ELSE 7, op.a \o <<Len(op.d)>>)
+
 ---------------------------------------------------------------------------
 (* expected results *)
 OutSingle(s) == LET e == ErrorOf(s) IN
     [err |-> e, ordered |-> OrderFixedOf(s),
      combos |-> IF e = "" THEN CombosOf(s) ELSE <<>>,
+     \* Sweep(items, dims, exclude, constants).add_derivers(derivers..).list()
+     added  |-> IF e = "" /\ s.ders # <<>> THEN CombosOf(AddDerivers(WithoutDerivers(s), s.ders)) ELSE <<>>,
      len |-> IF e = "" THEN LenOf(s) ELSE 0]          \* len of a sweep whose list() raises: no claim
 
 OutMulti(ss) ==
@@ -192,11 +237,14 @@ OutCount(s, pl) == LET deps == Deps(pl.funcs, pl.target, NameOrder) IN
 HistOut(ss, st) == [objs |-> st, ordered |-> \A i \in DOMAIN ss : OrderFixedOf(ss[i])]
 OutHist(c) == HistOut(c.ss, RunStore(StoreInit(c.ss), c.ops))
 
+OutPHist(c) == HistOut(c.ss, RunPStore(PStoreInit(c.ss), c.ops))
+
 OutOf(c) == CASE c.kind = "single" -> OutSingle(c.s)
               [] c.kind = "multi"  -> OutMulti(c.ss)
               [] c.kind = "filter" -> OutFilter(c.s, c.keys)
               [] c.kind = "count"  -> OutCount(c.s, c.pl)
               [] c.kind = "hist"   -> OutHist(c)
+              [] c.kind = "phist"  -> OutPHist(c)
 
 ---------------------------------------------------------------------------
 (* the universes *)
@@ -249,17 +297,28 @@ NextHist ==
           /\ case' = [case EXCEPT !.ops = Append(@, op)]
           /\ out' = [out EXCEPT !.objs = StepStore(@, op)]
 
+(* histories with products / add_derivers: as above; sums are spelled +.  A state is a case: the operands, the  *)
+(* steps so far, and the store - what EVERY object must enumerate now.                                           *)
+InitPHist == \E ss \in PHistTriples : Set([kind |-> "phist", ss |-> ss, sp |-> "+", ops |-> <<>>])
+NextPHist ==
+    /\ Len(case.ops) < MaxSteps
+    /\ \E op \in PSteps(out.objs) :
+          /\ IF case.ops = <<>> THEN InShard(POpHash(op)) ELSE \E j \in DOMAIN op.a : op.a[j] > Len(case.ss)
+          /\ case' = [case EXCEPT !.ops = Append(@, op)]
+          /\ out' = [out EXCEPT !.objs = PStep(@, op)]
+
 Init == CASE Mode = "single" -> InitSingle
           [] Mode = "multi"  -> InitMulti
           [] Mode = "filter" -> InitFilter
           [] Mode = "count"  -> InitCount
           [] Mode = "hist"   -> InitHist
-Next == IF Mode = "hist" THEN NextHist ELSE UNCHANGED vars
+          [] Mode = "phist"  -> InitPHist
+Next == IF Mode = "hist" THEN NextHist ELSE IF Mode = "phist" THEN NextPHist ELSE UNCHANGED vars
 Spec == Init /\ [][Next]_vars
 
 ---------------------------------------------------------------------------
 (* invariants: the laws per case *)
-SweepsOf(c) == IF c.kind \in {"multi", "hist"} THEN Range(c.ss) ELSE {c.s}
+SweepsOf(c) == IF c.kind \in {"multi", "hist", "phist"} THEN Range(c.ss) ELSE {c.s}
 InvWellFormed  == \A s \in SweepsOf(case) : WellFormed(s.items, s.dims)
 InvOut         == out = OutOf(case)
 InvExactlyOnce == \A s \in SweepsOf(case) : LawExactlyOnce(s.items, s.dims)
@@ -274,6 +333,10 @@ InvSums        == case.kind = "multi" =>          \* every sum expression over t
                      LET L == OperandLists(case.ss)  N == OperandLens(case.ss) IN
                      \A e \in Shapes : EvalSum(e, L) = out.concat /\ LenSum(e, N) = out.clen
 InvHistory     == case.kind = "hist" => LawHistory(case.ss, case.ops, case.sp, out.objs)
+InvObjHistory  == case.kind = "phist" => LawObjHistory(case.ss, case.ops, out.objs)
+InvAddDerivers == case.kind = "single" =>         \* a sweep with derivers = add_derivers on the sweep without them
+                     /\ LawAddDerivers(WithoutDerivers(case.s), case.s.ders)
+                     /\ (out.err = "" /\ case.s.ders # <<>>) => out.added = out.combos
 InvFiltered    == case.kind = "filter" => case.s.consts = <<>> /\ case.s.excl = <<>> /\ LawFiltered(case.s, Range(case.keys))
 InvCount       == case.kind = "count" => LawCount(CombosOf(case.s), out.deps)
 
